@@ -96,7 +96,11 @@ def run(ctx):
         seen.add(key)
         ctx.add('U2.address', key, loc(con[0][3]), ok, 'connects to an address built from %s; expected host %s and port %s' % ([absx.fmt(x)[:40] for x in got], absx.fmt(exp_host)[:40], absx.fmt(exp_port)))
     ctx.floor('U2', 'connecting paths', n_conn, 8)
-    for need in ('unknown-scheme', 'ldap|host=url|port=default', 'ldap|host=missing|port=default', 'ldaps|host=url|port=default', 'ldap|host=url|port=url', 'ldaps|host=missing|port=url'):
+    has_tls = (AC + 'create_tls_stream') in f.hir
+    needs = ['unknown-scheme', 'ldap|host=url|port=default', 'ldap|host=missing|port=default', 'ldap|host=url|port=url']
+    if has_tls:
+        needs += ['ldaps|host=url|port=default', 'ldaps|host=missing|port=url']
+    for need in needs:
         ctx.add('U2.coverage', need, loc(B.root), need in seen, 'no path for ' + need)
     # stream kinds in the TCP constructor
     for o in outs:
